@@ -106,6 +106,28 @@ func streamConc(c *ctx) {
 					fail("conc", "a valid tag is refused under concurrency", name, "error", "nil")
 				}
 			})
+			// bursts of refused tags from every goroutine (other data, a flipped bit, a truncated tag) between the genuine ones:
+			// what one caller's failures are must not change what another caller's genuine tag is worth, then or afterwards
+			par(name+" mac with refused tags in between", func(g, i int) {
+				j := (g*5 + i) % len(inputs)
+				if want[j] == nil {
+					return
+				}
+				bad := append([]byte{}, want[j]...)
+				bad[(g+i)%len(bad)] ^= 1 << uint(i%8)
+				if m.MACVerify(inputs[j], bad) == nil || m.MACVerify(append([]byte("x"), inputs[j]...), want[j]) == nil || m.MACVerify(inputs[j], want[j][:len(want[j])-1]) == nil {
+					fail("conc", "a tampered tag verified on a shared MACer", name, "nil", "an error")
+				}
+				if i%4 == 3 && m.MACVerify(inputs[j], want[j]) != nil {
+					fail("conc", "a valid tag is refused on a shared MACer after other callers' tags were refused", name, "error", "nil")
+				}
+			})
+			for j, in := range inputs {
+				if want[j] != nil && m.MACVerify(in, want[j]) != nil {
+					fail("conc", "a valid tag is refused by a MACer that had been shared (refused tags from 16 goroutines before)", name, "error", "nil")
+					break
+				}
+			}
 		default:
 			e, err := k.Encryptor()
 			if err != nil {
@@ -559,53 +581,59 @@ func streamConc(c *ctx) {
 					}
 				}
 			})
-			// lists of six entries shared by all goroutines: lookups of every kid, whole COSE_Sign messages verified and
+			// lists of six and of twelve entries shared by all goroutines (and a key set of the same keys): lookups of every kid, whole COSE_Sign messages verified and
 			// produced with them; the lists are the same afterwards (order and entries)
-			var ks6 []key.Key
-			var vl key.Verifiers
-			var sl key.Signers
-			for j := 0; j < 6; j++ {
-				kk, err := genKeyFor(-8)
-				if err != nil {
-					continue
-				}
-				kk[iana.KeyParameterKid] = []byte{byte('a' + j)}
-				sj, e1 := kk.Signer()
-				vj, e2 := kk.Verifier()
-				if e1 != nil || e2 != nil {
-					continue
-				}
-				ks6, vl, sl = append(ks6, kk), append(vl, vj), append(sl, sj)
-			}
-			if len(vl) == 6 {
-				order := func() string {
-					o := ""
-					for j := range vl {
-						o += string(vl[j].Key().Kid()) + string(sl[j].Key().Kid())
+			for _, nL := range []int{6, 12} {
+				var ks6 []key.Key
+				var vl key.Verifiers
+				var sl key.Signers
+				for j := 0; j < nL; j++ {
+					kk, err := genKeyFor(-8)
+					if err != nil {
+						continue
 					}
-					return o
+					kk[iana.KeyParameterKid] = []byte{byte('a' + j)}
+					sj, e1 := kk.Signer()
+					vj, e2 := kk.Verifier()
+					if e1 != nil || e2 != nil {
+						continue
+					}
+					ks6, vl, sl = append(ks6, kk), append(vl, vj), append(sl, sj)
 				}
-				before := order()
-				ref, rerr := (&cose.SignMessage[[]byte]{Payload: []byte("p")}).SignAndEncode(sl, nil)
-				par("six shared verifiers / signers", func(g, i int) {
-					j := (g + i) % 6
-					if v := vl.Lookup(ks6[j].Kid()); v == nil || !bytes.Equal(v.Key().Kid(), ks6[j].Kid()) {
-						fail("conc", "lookup in a shared list of six verifiers returned another entry or none", fmt.Sprintf("kid %q", ks6[j].Kid()), "wrong entry", "the entry with that kid")
-					}
-					if sg := sl.Lookup(ks6[j].Kid()); sg == nil || !bytes.Equal(sg.Key().Kid(), ks6[j].Kid()) {
-						fail("conc", "lookup in a shared list of six signers returned another entry or none", fmt.Sprintf("kid %q", ks6[j].Kid()), "wrong entry", "the entry with that kid")
-					}
-					if i%10 == 0 && rerr == nil {
-						if _, err := cose.VerifySignMessage[[]byte](vl, ref, nil); err != nil {
-							fail("conc", "a COSE_Sign message does not verify with a shared list of verifiers", "six signers", err, "valid")
+				if len(vl) == nL {
+					order := func() string {
+						o := ""
+						for j := range vl {
+							o += string(vl[j].Key().Kid()) + string(sl[j].Key().Kid())
 						}
-						if out, err := (&cose.SignMessage[[]byte]{Payload: []byte("p")}).SignAndEncode(sl, nil); err != nil || !bytes.Equal(out, ref) {
-							fail("conc", "a deterministic COSE_Sign message produced with a shared list of signers differs from the one produced alone", "six signers", err, "identical bytes")
-						}
+						return o
 					}
-				})
-				if order() != before {
-					fail("conc", "using shared lists of verifiers / signers changed the lists", before, order(), "unchanged")
+					kset := key.KeySet(append([]key.Key{}, ks6...))
+					before := order()
+					ref, rerr := (&cose.SignMessage[[]byte]{Payload: []byte("p")}).SignAndEncode(sl, nil)
+					par(fmt.Sprintf("%d shared verifiers / signers", nL), func(g, i int) {
+						j := (g + i) % nL
+						if v := vl.Lookup(ks6[j].Kid()); v == nil || !bytes.Equal(v.Key().Kid(), ks6[j].Kid()) {
+							fail("conc", "lookup in a shared list of verifiers returned another entry or none", fmt.Sprintf("%d verifiers, kid %q", nL, ks6[j].Kid()), "wrong entry", "the entry with that kid")
+						}
+						if kf := kset.Lookup(ks6[j].Kid()); kf == nil || !bytes.Equal(kf.Kid(), ks6[j].Kid()) {
+							fail("conc", "lookup in a shared key set returned another key or none", fmt.Sprintf("%d keys, kid %q", nL, ks6[j].Kid()), "wrong key", "the key with that kid")
+						}
+						if sg := sl.Lookup(ks6[j].Kid()); sg == nil || !bytes.Equal(sg.Key().Kid(), ks6[j].Kid()) {
+							fail("conc", "lookup in a shared list of signers returned another entry or none", fmt.Sprintf("%d signers, kid %q", nL, ks6[j].Kid()), "wrong entry", "the entry with that kid")
+						}
+						if i%10 == 0 && rerr == nil {
+							if _, err := cose.VerifySignMessage[[]byte](vl, ref, nil); err != nil {
+								fail("conc", "a COSE_Sign message does not verify with a shared list of verifiers", "six signers", err, "valid")
+							}
+							if out, err := (&cose.SignMessage[[]byte]{Payload: []byte("p")}).SignAndEncode(sl, nil); err != nil || !bytes.Equal(out, ref) {
+								fail("conc", "a deterministic COSE_Sign message produced with a shared list of signers differs from the one produced alone", "six signers", err, "identical bytes")
+							}
+						}
+					})
+					if order() != before {
+						fail("conc", "using shared lists of verifiers / signers changed the lists", before, order(), "unchanged")
+					}
 				}
 			}
 			vs := key.Verifiers{vr}
